@@ -1,73 +1,63 @@
 """CIM-XML server facade for C04: a `requests` transport adapter that decodes the CIM-XML request with pywbem's own
-server-side tupleparse functions, executes it on a FakedWBEMConnection through its `_imethodcall`/`_methodcall` seam,
-and encodes the reply with pywbem's _cim_xml element classes the way DSP0200 prescribes for each operation.
+server-side tupleparse functions, executes it on a FakedWBEMConnection (or any object with the same seam) through
+`_imethodcall(methodname, namespace, **params)` / `_methodcall(methodname, localobject, Params=[...])`, and encodes the
+reply with pywbem's _cim_xml element classes the way DSP0200 prescribes for each operation.
 
-Typing of IPARAMVALUE texts follows the DSP0200 operation signatures (SIGNATURE below): IPARAMVALUE carries no type
+Typing of IPARAMVALUE texts follows the DSP0200 operation signatures (the name sets below): IPARAMVALUE carries no type
 information, so a server has to know the signature; parse_iparamvalue() itself coerces only four boolean names.
-Harness code (trusted, DESIGN.md §7.4); kept small on purpose.
+The Lean model mirrors this file in Model/Ops.lean (typeRaw, ritemXml, responseXml) and is compared with it byte for byte
+in the correspondence run.  Harness code (trusted, DESIGN.md §7.4); kept small on purpose.
 """
+import copy
+
 import requests
 from requests.adapters import BaseAdapter
+
+import c04spec
 
 BOOL_PARAMS = {'localonly', 'deepinheritance', 'includequalifiers', 'includeclassorigin', 'continueonerror',
                'returnqueryresultclass'}
 UINT_PARAMS = {'operationtimeout', 'maxobjectcount'}
-CLASSNAME_PARAMS = {'classname', 'assocclass', 'resultclass'}
-STRING_PARAMS = {'role', 'resultrole', 'qualifiername', 'propertyname', 'enumerationcontext', 'querylanguage', 'query',
-                 'filterquerylanguage', 'filterquery'}
 
 # how IRETURNVALUE objects of each operation are written (DSP0200 / DSP0201)
 INSTANCE_AS = {
-    'GetInstance': 'INSTANCE',
     'EnumerateInstances': 'VALUE.NAMEDINSTANCE',
     'ExecQuery': 'VALUE.OBJECT',
     'OpenEnumerateInstances': 'VALUE.INSTANCEWITHPATH', 'PullInstancesWithPath': 'VALUE.INSTANCEWITHPATH',
     'OpenReferenceInstances': 'VALUE.INSTANCEWITHPATH', 'OpenAssociatorInstances': 'VALUE.INSTANCEWITHPATH',
-    'OpenQueryInstances': 'INSTANCE', 'PullInstances': 'INSTANCE',
 }
 INSTANCENAME_AS = {
-    'EnumerateInstanceNames': 'INSTANCENAME', 'CreateInstance': 'INSTANCENAME',
     'OpenEnumerateInstancePaths': 'INSTANCEPATH', 'PullInstancePaths': 'INSTANCEPATH',
     'OpenReferenceInstancePaths': 'INSTANCEPATH', 'OpenAssociatorInstancePaths': 'INSTANCEPATH',
 }
 
 
-class Seen:
-    """what the server side saw, for the 'server sees exactly what the caller supplied' half of C04"""
-
-    def __init__(self):
-        self.calls = []
-
-
 def _typed(name, raw):
     """IPARAMVALUE child as parsed by parse_iparamvalue -> the typed value the operation signature prescribes"""
-    import pywbem
     ln = name.lower()
     if isinstance(raw, str):
         if ln in BOOL_PARAMS:
             return raw.lower() == 'true'
         if ln in UINT_PARAMS:
             return int(raw)
-        return raw
-    if isinstance(raw, list) and ln == 'propertylist':
-        return raw
     return raw
 
 
 class FacadeAdapter(BaseAdapter):
-    def __init__(self, fake, seen=None, host_for_paths=None):
+    """`log` gets one dict per exchange: body, tt (request tupletree), kind, op, namespace, params (typed values the
+    operation was called with, in wire order), result (what the seam returned) or error (code, description), response"""
+
+    def __init__(self, fake, host_for_paths=None):
         super().__init__()
         self.fake = fake
-        self.seen = seen
         self.host = host_for_paths or fake.host
-        self.requests = []
+        self.log = []
 
     def close(self):
         pass
 
     # ------------------------------------------------------------------ encoding of results
-    def _inst_path_xml(self, path, form):
-        from pywbem import _cim_xml
+    def _path_xml(self, path, form):
         p = path.copy()
         if form == 'INSTANCENAME':
             return p.tocimxml(ignore_namespace=True)
@@ -81,36 +71,27 @@ class FacadeAdapter(BaseAdapter):
         if isinstance(o, tuple) and len(o) == 3 and o[0] == 'OBJECTPATH':
             x = o[2]
             if isinstance(x, pywbem.CIMInstance):
-                return _cim_xml.VALUE_OBJECTWITHPATH(self._inst_path_xml(x.path, 'INSTANCEPATH'),
-                                                     x.tocimxml(ignore_path=True))
-            if isinstance(x, pywbem.CIMInstanceName):
-                return _cim_xml.OBJECTPATH(self._inst_path_xml(x, 'INSTANCEPATH'))
-            if isinstance(x, pywbem.CIMClassName):
-                p = x.copy()
-                if p.host is None:
-                    p.host = self.host
-                return _cim_xml.OBJECTPATH(p.tocimxml())
+                path = x.path if x.path is not None else pywbem.CIMInstanceName(x.classname)
+                return _cim_xml.VALUE_OBJECTWITHPATH(self._path_xml(path, 'INSTANCEPATH'), x.tocimxml(ignore_path=True))
+            if isinstance(x, (pywbem.CIMInstanceName, pywbem.CIMClassName)):
+                return _cim_xml.OBJECTPATH(self._path_xml(x, 'INSTANCEPATH'))
             if isinstance(x, tuple):
                 cp, cl = x
-                p = cp.copy()
-                if p.host is None:
-                    p.host = self.host
-                return _cim_xml.VALUE_OBJECTWITHPATH(p.tocimxml(), cl.tocimxml())
+                return _cim_xml.VALUE_OBJECTWITHPATH(self._path_xml(cp, 'CLASSPATH'), cl.tocimxml())
             raise TypeError('facade: OBJECTPATH of %r' % (type(x),))
         if isinstance(o, pywbem.CIMInstance):
             form = INSTANCE_AS.get(op, 'INSTANCE')
+            path = o.path if o.path is not None else pywbem.CIMInstanceName(o.classname)
             if form == 'INSTANCE':
                 return o.tocimxml(ignore_path=True)
             if form == 'VALUE.NAMEDINSTANCE':
-                return _cim_xml.VALUE_NAMEDINSTANCE(self._inst_path_xml(o.path, 'INSTANCENAME'),
-                                                    o.tocimxml(ignore_path=True))
+                return _cim_xml.VALUE_NAMEDINSTANCE(self._path_xml(path, 'INSTANCENAME'), o.tocimxml(ignore_path=True))
             if form == 'VALUE.INSTANCEWITHPATH':
-                return _cim_xml.VALUE_INSTANCEWITHPATH(self._inst_path_xml(o.path, 'INSTANCEPATH'),
-                                                       o.tocimxml(ignore_path=True))
+                return _cim_xml.VALUE_INSTANCEWITHPATH(self._path_xml(path, 'INSTANCEPATH'), o.tocimxml(ignore_path=True))
             if form == 'VALUE.OBJECT':
                 return _cim_xml.VALUE_OBJECT(o.tocimxml(ignore_path=True))
         if isinstance(o, pywbem.CIMInstanceName):
-            return self._inst_path_xml(o, INSTANCENAME_AS.get(op, 'INSTANCENAME'))
+            return self._path_xml(o, INSTANCENAME_AS.get(op, 'INSTANCENAME'))
         if isinstance(o, pywbem.CIMClassName):
             return o.tocimxml(ignore_namespace=True)
         if isinstance(o, pywbem.CIMQualifierDeclaration):
@@ -126,38 +107,50 @@ class FacadeAdapter(BaseAdapter):
     def _imethod_response(self, op, result):
         from pywbem import _cim_xml
         children = []
-        if result:
-            for item in result:
-                if item[0] == 'IRETURNVALUE':
-                    objs = item[2]
-                    if objs is None:
-                        objs = []
-                    children.append(_cim_xml.IRETURNVALUE([self._obj_xml(op, o) for o in objs]))
+        for item in (result or []):
+            if item[0] == 'IRETURNVALUE':
+                children.append(_cim_xml.IRETURNVALUE([self._obj_xml(op, o) for o in (item[2] or [])]))
+            else:
+                name, _, value = item
+                if name == 'EndOfSequence':
+                    children.append(_cim_xml.PARAMVALUE(name, _cim_xml.VALUE(str(value).upper()), 'boolean'))
+                elif name == 'QueryResultClass':
+                    children.append(_cim_xml.PARAMVALUE(name, value.tocimxml() if value is not None else None))
                 else:
-                    name, _, value = item
-                    if name == 'EndOfSequence':
-                        children.append(_cim_xml.PARAMVALUE(name, _cim_xml.VALUE(str(value).upper()), 'boolean'))
-                    elif name == 'QueryResultClass':
-                        children.append(_cim_xml.PARAMVALUE(name, value.tocimxml() if value is not None else None))
-                    else:
-                        v = None if value in (None, '') else _cim_xml.VALUE(value)
-                        children.append(_cim_xml.PARAMVALUE(name, v, 'string'))
+                    v = None if value is None else _cim_xml.VALUE(value)
+                    children.append(_cim_xml.PARAMVALUE(name, v, 'string'))
         return _cim_xml.IMETHODRESPONSE(op, children)
 
     def _method_response(self, op, result):
-        """result of fake._methodcall: [('RETURNVALUE', {'PARAMTYPE': t}, value), (pname, ptype, pvalue), ...]"""
+        """result of fake._methodcall: (returnvalue, outparams) as InvokeMethod returns it"""
         import pywbem
         from pywbem import _cim_xml
         children = []
-        for item in result:
-            if item[0] == 'RETURNVALUE':
-                t = item[1].get('PARAMTYPE')
-                children.append(_cim_xml.RETURNVALUE(pywbem.tocimxml(item[2]), t))
+        rv, outs = result
+        if rv is not None:
+            t = pywbem.cimtype(rv)
+            eo = 'instance' if isinstance(rv, pywbem.CIMInstance) else 'object' if isinstance(rv, pywbem.CIMClass) else None
+            if isinstance(rv, (pywbem.CIMInstanceName, pywbem.CIMClassName)):
+                node = _cim_xml.VALUE_REFERENCE(rv.tocimxml())
+            elif eo:
+                node = _cim_xml.VALUE(rv.tocimxml(ignore_path=True).toxml() if eo == 'instance' else rv.tocimxml().toxml())
             else:
-                pname, ptype, pvalue = item
-                p = pywbem.CIMParameter(pname, ptype, value=pvalue,
-                                        is_array=isinstance(pvalue, list))
-                children.append(p.tocimxml(as_value=True))
+                node = pywbem.tocimxml(rv)
+            children.append(_cim_xml.RETURNVALUE(node, t, embedded_object=eo))
+        items = outs.items() if hasattr(outs, 'items') else [(p.name, p) for p in outs]
+        for pname, pvalue in items:
+            known = getattr(self.fake, 'c04_outtypes', {}).get(pname.lower())
+            if isinstance(pvalue, pywbem.CIMParameter):
+                p = pvalue
+            elif known:       # declared type of the output parameter (needed for NULL / empty arrays)
+                p = pywbem.CIMParameter(pname, known[0], value=pvalue, is_array=known[1], embedded_object=known[2])
+            else:
+                first = pvalue[0] if isinstance(pvalue, list) and pvalue else pvalue
+                eo = 'instance' if isinstance(first, pywbem.CIMInstance) else 'object' \
+                    if isinstance(first, pywbem.CIMClass) else None
+                p = pywbem.CIMParameter(pname, pywbem.cimtype(pvalue), value=pvalue, is_array=isinstance(pvalue, list),
+                                        embedded_object=eo)
+            children.append(p.tocimxml(as_value=True))
         return _cim_xml.METHODRESPONSE(op, children)
 
     def _wrap(self, msgid, rsp):
@@ -172,55 +165,70 @@ class FacadeAdapter(BaseAdapter):
         from pywbem._tupletree import xml_to_tupletree_sax
         from pywbem._tupleparse import TupleParser
         body = request.body if isinstance(request.body, bytes) else request.body.encode('utf-8')
-        self.requests.append((dict(request.headers), body))
+        rec = {'body': body, 'headers': dict(request.headers), 'stage': 'parse'}
+        self.log.append(rec)
         tt = xml_to_tupletree_sax(body, 'facade request')
+        rec['tt'] = tt
         tp = TupleParser()
         cim = tp.parse_cim(tt)
         msg = cim[2]
         msgid = msg[1]['ID']
-        simplereq = msg[2]
-        call = simplereq[2]
+        call = msg[2][2]
         kind = call[0]
         op = call[1]['NAME']
+        rec.update(kind=kind, op=op, msgid=msgid)
         try:
             if kind == 'IMETHODCALL':
                 namespace = call[2]
-                params = {}
+                params = []
                 for pname, raw in call[3]:
                     v = _typed(pname, raw)
                     if v is not None:
-                        params[pname] = v
-                if self.seen is not None:
-                    self.seen.calls.append(('imethod', op, namespace, _canon_params(params)))
+                        params.append((pname, v))
+                rec.update(namespace=namespace, params=copy.deepcopy(params))
                 kw = {}
                 if op.startswith('Open') or op.startswith('Pull'):
                     kw['has_out_params'] = True
-                result = self.fake._imethodcall(op, namespace, **params, **kw)
+                # the seam's convention for "parameter not supplied" is the value None
+                for pname, _, _ in c04spec.SPEC.get(op, {'params': []})['params']:
+                    kw.setdefault(pname, None)
+                kw.update(dict(params))
+                rec['stage'] = 'execute'
+                result = self.fake._imethodcall(op, namespace, **kw)
+                rec['result'] = result
+                rec['stage'] = 'encode'
                 rsp = self._imethod_response(op, result)
             else:
                 localobject = call[2]
                 plist = []
                 for pname, ptype, pvalue in call[3]:
-                    if ptype is None:
-                        ptype = 'string'
                     val = pvalue
-                    if not isinstance(pvalue, (pywbem.CIMInstanceName, pywbem.CIMClassName, pywbem.CIMInstance,
-                                               pywbem.CIMClass)):
+                    if ptype is not None and ptype != 'reference' and not isinstance(
+                            pvalue, (pywbem.CIMInstance, pywbem.CIMClass)):
                         if isinstance(pvalue, list):
-                            if ptype != 'reference' and not (pvalue and isinstance(
-                                    pvalue[0], (pywbem.CIMInstance, pywbem.CIMClass, pywbem.CIMInstanceName))):
+                            if not (pvalue and isinstance(pvalue[0], (pywbem.CIMInstance, pywbem.CIMClass))):
                                 val = [None if x is None else tp.unpack_single_value(x, ptype) for x in pvalue]
                         elif pvalue is not None:
                             val = tp.unpack_single_value(pvalue, ptype)
-                    plist.append(pywbem.CIMParameter(pname, ptype, value=val, is_array=isinstance(val, list)))
-                if self.seen is not None:
-                    self.seen.calls.append(('method', op, str(localobject), [(p.name, p.type, repr(p.value)) for p in plist]))
+                    first = val[0] if isinstance(val, list) and val else val
+                    eo = 'instance' if isinstance(first, pywbem.CIMInstance) else 'object' \
+                        if isinstance(first, pywbem.CIMClass) else None
+                    plist.append(pywbem.CIMParameter(pname, ptype or 'string', value=val, is_array=isinstance(val, list),
+                                                     embedded_object=eo))
+                rec.update(namespace=localobject.namespace, localobject=copy.deepcopy(localobject),
+                           params=[(p.name, copy.deepcopy(p)) for p in plist])
+                rec['stage'] = 'execute'
                 result = self.fake._methodcall(op, localobject, Params=plist)
+                rec['result'] = result
+                rec['stage'] = 'encode'
                 rsp = self._method_response(op, result)
         except pywbem.CIMError as e:
+            rec['error'] = (e.status_code, e.status_description)
+            rec['stage'] = 'encode'
             err = _cim_xml.ERROR(str(e.status_code), e.status_description)
             rsp = (_cim_xml.IMETHODRESPONSE if kind == 'IMETHODCALL' else _cim_xml.METHODRESPONSE)(op, err)
         data = self._wrap(msgid, rsp)
+        rec['response'] = data
         r = requests.Response()
         r.status_code = 200
         r.headers['Content-Type'] = 'application/xml; charset="utf-8"'
@@ -233,28 +241,12 @@ class FacadeAdapter(BaseAdapter):
         return r
 
 
-def _canon_params(params):
-    import json
-    import cimproto
-    import c01
-    out = {}
-    for k, v in params.items():
-        if k.lower() == 'enumerationcontext':
-            out[k.lower()] = '<context>'
-        elif hasattr(v, 'tocimxml'):
-            j = c01.canon(c01.with_defaults(cimproto.obj_to_json(v, cimproto.Tables())))
-            out[k.lower()] = json.dumps(j, sort_keys=True)
-        else:
-            out[k.lower()] = repr(v)
-    return sorted(out.items())
-
-
-def make_client(fake, default_namespace=None, seen=None):
+def make_client(fake, default_namespace=None, **kw):
     """a real WBEMConnection whose HTTP transport is the facade in front of `fake`"""
     import pywbem
-    conn = pywbem.WBEMConnection('http://' + fake.host, default_namespace=default_namespace or fake.default_namespace,
-                                 use_pull_operations=False)
-    ad = FacadeAdapter(fake, seen=seen)
+    conn = pywbem.WBEMConnection('http://' + fake.host, default_namespace=default_namespace,
+                                 use_pull_operations=False, **kw)
+    ad = FacadeAdapter(fake)
     conn.session.mount('http://', ad)
     conn.session.mount('https://', ad)
     return conn, ad
